@@ -31,6 +31,19 @@ class _Rename(ast.NodeTransformer):
     def visit_FunctionDef(self, node):
         return self.generic_visit(node)
 
+    def visit_Lambda(self, node):
+        # lambda parameters are locals of the lambda: renamed as well
+        saved = self.mapping
+        self.mapping = dict(saved)
+        for a in node.args.args + node.args.kwonlyargs:
+            self.mapping[a.arg] = a.arg + '_rn'
+            a.arg = a.arg + '_rn'
+        try:
+            node.body = self.visit(node.body)
+            return node
+        finally:
+            self.mapping = saved
+
     def visit_ExceptHandler(self, node):
         if node.name in self.mapping:
             node.name = self.mapping[node.name]
@@ -73,6 +86,79 @@ def renamed_source(src: str, fnode) -> str:
     indent = ' ' * fnode.col_offset
     body = ''.join(indent + l + '\n' for l in text.splitlines())
     return ''.join(lines[:start]) + body + ''.join(lines[end:])
+
+
+def rename_everything(root: str) -> str:
+    """scratch copy of the package in which the locals of every function and method are renamed"""
+    tmp = tempfile.mkdtemp(prefix='sa_rename_all_')
+    dst = os.path.join(tmp, 'src', 'peptacular')
+    shutil.copytree(os.path.join(root, 'src', 'peptacular'), dst,
+                    ignore=shutil.ignore_patterns('__pycache__', '*.pyc', 'resid.xml'))
+    n_funcs = 0
+    for dirpath, _dirs, files in os.walk(dst):
+        for fn in files:
+            if not fn.endswith('.py'):
+                continue
+            path = os.path.join(dirpath, fn)
+            src = open(path, encoding='utf-8').read()
+            tree = ast.parse(src)
+            funcs = []
+            for node in tree.body:
+                if isinstance(node, (ast.FunctionDef, ast.AsyncFunctionDef)):
+                    funcs.append(node)
+                elif isinstance(node, ast.ClassDef):
+                    funcs.extend(x for x in node.body if isinstance(x, (ast.FunctionDef, ast.AsyncFunctionDef)))
+            for f in sorted(funcs, key=lambda f: -f.lineno):
+                new = renamed_source(src, f)
+                if new is None:
+                    continue
+                try:
+                    ast.parse(new)
+                except SyntaxError:
+                    continue
+                src = new
+                n_funcs += 1
+            with open(path, 'w', encoding='utf-8') as fh:
+                fh.write(src)
+    return tmp, n_funcs
+
+
+def _whole(args):
+    prop, root = args
+    warnings.simplefilter('ignore')
+    from .check import analyse
+    from .selftest import _finding_keys
+    rep = analyse(prop, root)
+    return prop, _finding_keys(rep), list(rep.errors)
+
+
+def run_whole(props: List[str], root: str = None, jobs: int = 16) -> int:
+    """one variant: every local of every function renamed at once; findings of every property must be unchanged"""
+    warnings.simplefilter('ignore')
+    root = root or repo_root()
+    tmp, n_funcs = rename_everything(root)
+    bad = 0
+    try:
+        with ProcessPoolExecutor(max_workers=jobs) as ex:
+            base = {p: (k, e) for p, k, e in ex.map(_whole, [(p, root) for p in props])}
+            for p, keys, errs in ex.map(_whole, [(p, tmp) for p in props]):
+                new = {k: v for k, v in keys.items() if k not in base[p][0]}
+                gone = [k for k in base[p][0] if k not in keys]
+                new_err = [e for e in errs if e not in base[p][1]]
+                if new or gone or new_err:
+                    bad += 1
+                    print(f'FALSE-ALARM {p} after renaming the locals of all {n_funcs} functions:')
+                    for v in list(new.values())[:12]:
+                        print('    new:', v[:230])
+                    for e in new_err[:5]:
+                        print('    error:', e[:230])
+                    for g in gone[:5]:
+                        print('    gone:', g)
+                else:
+                    print(f'{p}: silent after renaming the locals of all {n_funcs} functions')
+    finally:
+        shutil.rmtree(tmp, ignore_errors=True)
+    return bad
 
 
 def anchors_of(prop: str, root: str) -> List[str]:
@@ -173,5 +259,8 @@ def run(props: List[str], root: str = None, jobs: int = 16) -> int:
 
 
 if __name__ == '__main__':
-    props = sys.argv[1:] or [f'C{i:02d}' for i in range(1, 21) if i != 6]
-    sys.exit(1 if run(props) else 0)
+    args = [a for a in sys.argv[1:] if not a.startswith('--')]
+    props = args or [f'C{i:02d}' for i in range(1, 21) if i != 6]
+    if '--per-function' in sys.argv:
+        sys.exit(1 if run(props) else 0)
+    sys.exit(1 if run_whole(props) else 0)
